@@ -40,9 +40,9 @@ uint32_t g_r[4], g_X[16], g_in[4];
 
 /* ---------------- streaming layer ghosts: the compression function is replaced by a recorder of WHICH bytes it is given:
    g_nblocks counts calls; the byte g_bj of call number g_bi is remembered in g_obs (arbitrary ghost pair chosen by the harness) */
-size_t g_nblocks, g_bi, g_bj, g_mk; unsigned char g_obs;
+size_t g_nblocks, g_bi, g_bj, g_mk, g_mk2; unsigned char g_obs;
 /* entry snapshot for md5_append: bytes already buffered, blocks before the call, and the two old buffer bytes the postcondition may need */
-size_t g_off0, g_nb0, g_lj; unsigned char g_old_for_obs, g_old_for_left; md5_word_t g_c0, g_c1;
+size_t g_off0, g_nb0, g_lj, g_cnt0; unsigned char g_obs0; unsigned char g_old_for_obs, g_old_for_left; md5_word_t g_c0, g_c1;
 #define MD5_OFF(pms) (((pms)->count[0] >> 3) & 63)
 /* ---------------- FIPS 180-4 SHA-1 ghost (section 6.1.2) */
 struct sha1 { unsigned int h_[5]; unsigned char block_[64]; size_t block_byte_index_; size_t byte_count_; };
@@ -61,6 +61,14 @@ md5_inserts = [(r'#define ROTATE_LEFT[^\n]*\n', 0, 'MD5_LOAD();')]
 for n in range(64):
     md5_inserts.append((r'\bSET\([^;()]*\);', n, 'MD5_CUT(%d);' % n))
 
+# FIPS 180-4 5.1.1 padding, value at stream position t of (buffered bytes ++ 0x80 ++ zeros), seen at the ghost index
+SHA1_PADZ = '((%s) < g_off0 ? g_old_for_obs : (%s) == g_off0 ? 0x80 : 0)'
+SHA1_PAD_LOOP = '''__CPROVER_assigns(__CPROVER_object_whole(self->block_), self->block_byte_index_, self->byte_count_, self->h_[0], self->h_[1], self->h_[2], self->h_[3], self->h_[4], g_nblocks, g_obs)
+__CPROVER_loop_invariant(%%(where)s && self->byte_count_ + g_off0 == g_cnt0 + 64 * (g_nblocks - g_nb0) + self->block_byte_index_)
+/* bytes waiting in block_ and blocks already handed over are (buffered bytes ++ 0x80 ++ zeros), at the ghost index */
+__CPROVER_loop_invariant(g_bj < self->block_byte_index_ ==> self->block_[g_bj] == %s)
+__CPROVER_loop_invariant(g_obs == ((g_bi >= g_nb0 && g_bi < g_nblocks) ? %s : g_obs0))
+__CPROVER_decreases(%%(dec)s)''' % (SHA1_PADZ % (('64 * (g_nblocks - g_nb0) + g_bj',) * 2), SHA1_PADZ % (('64 * (g_bi - g_nb0) + g_bj',) * 2))
 functions = [
     dict(cname='md5_process', file=M, locate=r'static void\s+md5_process\(md5_state_t \*pms, const md5_byte_t \*data\s*\)',
          sig='void md5_process(md5_state_t *pms, const md5_byte_t *data)', functional_casts=False,
@@ -71,10 +79,10 @@ functions = [
                   '/* RFC 1321 section 3.3 initial values, zero length */\n'
                   '__CPROVER_ensures(pms->abcd[0] == 0x67452301u && pms->abcd[1] == 0xefcdab89u && pms->abcd[2] == 0x98badcfeu && pms->abcd[3] == 0x10325476u && pms->count[0] == 0 && pms->count[1] == 0)'),
     dict(stub=True, cname='verif_memcpy', sig='void *verif_memcpy(void *dst, void const *src, size_t n)',
-         contract='/* C11 memcpy: disjoint valid ranges; dst[k] == src[k] at the arbitrary ghost index g_mk; nothing outside dst[0..n) changes */\n'
+         contract='/* C11 memcpy: disjoint valid ranges; dst[k] == src[k] at the two arbitrary ghost indices g_mk, g_mk2; nothing outside dst[0..n) changes */\n'
                   '__CPROVER_requires(n <= 64 && (n == 0 || (__CPROVER_r_ok(src, n) && __CPROVER_w_ok(dst, n) && !SAME(dst, src))))\n'
                   '__CPROVER_assigns(__CPROVER_object_upto(dst, n))\n'
-                  '__CPROVER_ensures(g_mk < n ==> ((unsigned char *)dst)[g_mk] == ((unsigned char const *)src)[g_mk])'),
+                  '__CPROVER_ensures((g_mk < n ==> ((unsigned char *)dst)[g_mk] == ((unsigned char const *)src)[g_mk]) && (g_mk2 < n ==> ((unsigned char *)dst)[g_mk2] == ((unsigned char const *)src)[g_mk2]))'),
     dict(stub=True, cname='md5_process_c', sig='void md5_process_c(md5_state_t *pms, const md5_byte_t *data)',
          contract='/* contract of md5_process as far as the streaming layer needs it (its functional contract = RFC 1321 compression is job md5_process): reads the 64-byte block, changes only abcd */\n'
                   '__CPROVER_requires(__CPROVER_rw_ok(pms, sizeof(*pms)) && __CPROVER_r_ok(data, 64))\n'
@@ -82,7 +90,7 @@ functions = [
                   '__CPROVER_ensures(g_nblocks == __CPROVER_old(g_nblocks) + 1 && g_obs == (__CPROVER_old(g_nblocks) == g_bi ? data[g_bj] : __CPROVER_old(g_obs)))'),
     dict(cname='md5_append', file=M, locate=r'void\s+md5_append\(md5_state_t \*pms, const md5_byte_t \*data, int nbytes\)', sig='void md5_append(md5_state_t *pms, const md5_byte_t *data, int nbytes)',
          functional_casts=False, rename={'md5_process': 'md5_process_c', 'memcpy': 'verif_memcpy'},
-         body_ghost='g_off0 = MD5_OFF(pms); g_nb0 = g_nblocks; g_mk = g_bj - g_off0; g_c0 = pms->count[0]; g_c1 = pms->count[1]; '
+         body_ghost='g_off0 = MD5_OFF(pms); g_nb0 = g_nblocks; g_mk = g_bj - g_off0; g_mk2 = g_bj; g_c0 = pms->count[0]; g_c1 = pms->count[1]; '
                     'g_old_for_obs = (g_bi >= g_nb0 && 64 * (g_bi - g_nb0) + g_bj < g_off0) ? pms->buf[64 * (g_bi - g_nb0) + g_bj] : 0;',
          loops={0: '''__CPROVER_assigns(p, left, pms->abcd[0], pms->abcd[1], pms->abcd[2], pms->abcd[3], g_nblocks, g_obs)
 __CPROVER_loop_invariant(left >= 0 && left <= nbytes && SAME(p, data) && OFF(p) + (size_t)left == OFF(data) + (size_t)nbytes && g_nblocks >= g_nb0 && g_nblocks - g_nb0 <= 1 + (size_t)nbytes / 64 &&
@@ -93,7 +101,7 @@ __CPROVER_decreases(left)'''},
 /* nbytes << 3 is computed in int: lengths of 2^28 bytes or more per call are outside the contract (listed) */
 /* (nbytes << 3 is evaluated before the nbytes <= 0 test: negative lengths are outside the contract too) */
 __CPROVER_requires(__CPROVER_rw_ok(pms, sizeof(*pms)) && nbytes >= 0 && nbytes < (1 << 28) && (nbytes <= 0 || __CPROVER_r_ok(data, nbytes)) && g_bj < 64 && g_nblocks <= BUF_CAP && !SAME(data, pms))
-__CPROVER_assigns(*pms, g_nblocks, g_obs, g_off0, g_nb0, g_c0, g_c1, g_old_for_obs, g_mk)
+__CPROVER_assigns(*pms, g_nblocks, g_obs, g_off0, g_nb0, g_c0, g_c1, g_old_for_obs, g_mk, g_mk2)
 /* the message length (64-bit bit count, RFC 1321 3.2) grows by exactly 8*nbytes */
 __CPROVER_ensures(nbytes > 0 ==> (((uint64_t)pms->count[1] << 32) | pms->count[0]) == (((uint64_t)g_c1 << 32) | g_c0) + ((uint64_t)nbytes << 3))
 /* exactly the completed 64-byte blocks of (buffered bytes ++ data) were given to the compression function, in order:
@@ -106,7 +114,7 @@ __CPROVER_ensures(nbytes <= 0 ==> (g_nblocks == g_nb0 && pms->count[0] == g_c0 &
     dict(cname='md5_finish', file=M, locate=r'void\s+md5_finish\(md5_state_t \*pms, md5_byte_t digest\[16\]\)', sig='void md5_finish(md5_state_t *pms, md5_byte_t *digest)',
          functional_casts=False, hoist=[r'(?s)static const md5_byte_t pad\[64\] = \{.*?\};'],
          contract='__CPROVER_requires(__CPROVER_rw_ok(pms, sizeof(*pms)) && __CPROVER_w_ok(digest, 16) && g_bj < 64 && g_nblocks <= BUF_CAP && !SAME(digest, pms))\n'
-                  '__CPROVER_assigns(*pms, __CPROVER_object_upto(digest, 16), g_nblocks, g_obs, g_off0, g_nb0, g_c0, g_c1, g_old_for_obs, g_mk)'),
+                  '__CPROVER_assigns(*pms, __CPROVER_object_upto(digest, 16), g_nblocks, g_obs, g_off0, g_nb0, g_c0, g_c1, g_old_for_obs, g_mk, g_mk2)'),
     # ---------------- SHA-1
     dict(cname='left_rotate', file=S, locate=lit('inline unsigned int left_rotate(unsigned int x, std::size_t n)'), sig='unsigned int left_rotate(unsigned int x, size_t n)',
          contract='__CPROVER_requires(n >= 1 && n <= 31)\n__CPROVER_assigns()\n__CPROVER_ensures(__CPROVER_return_value == ROTL32(x, n))'),
@@ -137,6 +145,52 @@ __CPROVER_assigns(self->h_[0], self->h_[1], self->h_[2], self->h_[3], self->h_[4
 __CPROVER_ensures(self->h_[0] == __CPROVER_old(self->h_[0]) + g_s[0] && self->h_[1] == __CPROVER_old(self->h_[1]) + g_s[1] && self->h_[2] == __CPROVER_old(self->h_[2]) + g_s[2] &&
                   self->h_[3] == __CPROVER_old(self->h_[3]) + g_s[3] && self->h_[4] == __CPROVER_old(self->h_[4]) + g_s[4])
 """),
+    dict(stub=True, cname='sha1_process_block0_c', sig='void sha1_process_block0_c(struct sha1 *self)',
+         contract='/* contract of sha1::process_block() as far as the streaming layer needs it (its functional contract = FIPS 180-4 compression is job sha1_process_block0): reads block_, changes only h_ */\n'
+                  '__CPROVER_requires(__CPROVER_rw_ok(self, sizeof(*self)))\n'
+                  '__CPROVER_assigns(self->h_[0], self->h_[1], self->h_[2], self->h_[3], self->h_[4], g_nblocks, g_obs)\n'
+                  '__CPROVER_ensures(g_nblocks == __CPROVER_old(g_nblocks) + 1 && g_obs == (__CPROVER_old(g_nblocks) == g_bi ? self->block_[g_bj] : __CPROVER_old(g_obs)))'),
+    dict(cname='sha1_process_byte', file=S, locate=lit('inline void sha1::process_byte(unsigned char byte)'), sig='void sha1_process_byte(struct sha1 *self, unsigned char byte)', self_arg='self',
+         members=['block_', 'block_byte_index_', 'byte_count_'], rewrites=[(r'process_block\(\);', 'sha1_process_block0_c(self);', 1)],
+         contract=r'''
+__CPROVER_requires(__CPROVER_rw_ok(self, sizeof(*self)) && self->block_byte_index_ < 64 && self->byte_count_ <= BUF_CAP * 4 && g_bj < 64 && g_nblocks <= BUF_CAP * 4)
+__CPROVER_assigns(self->block_[self->block_byte_index_], self->block_byte_index_, self->byte_count_, self->h_[0], self->h_[1], self->h_[2], self->h_[3], self->h_[4], g_nblocks, g_obs)
+/* the byte is stored at the cursor, the cursor advances modulo 64, the length grows by one, and a full block is handed to the compression function exactly when the cursor wraps */
+__CPROVER_ensures(self->block_[__CPROVER_old(self->block_byte_index_)] == byte && self->byte_count_ == __CPROVER_old(self->byte_count_) + 1)
+__CPROVER_ensures(self->block_byte_index_ == (__CPROVER_old(self->block_byte_index_) == 63 ? 0 : __CPROVER_old(self->block_byte_index_) + 1))
+__CPROVER_ensures(g_nblocks == __CPROVER_old(g_nblocks) + (__CPROVER_old(self->block_byte_index_) == 63 ? 1 : 0))
+__CPROVER_ensures(g_obs == ((__CPROVER_old(self->block_byte_index_) == 63 && __CPROVER_old(g_nblocks) == g_bi) ? self->block_[g_bj] : __CPROVER_old(g_obs)))
+'''),
+    dict(cname='sha1_process_block_range', file=S, locate=lit('inline void sha1::process_block(void const* bytes_begin, void const* bytes_end)'),
+         sig='void sha1_process_block_range(struct sha1 *self, void const *bytes_begin, void const *bytes_end)', self_arg='self', rename={'process_byte': 'sha1_process_byte'},
+         body_ghost='g_off0 = self->block_byte_index_; g_nb0 = g_nblocks; g_cnt0 = self->byte_count_; g_old_for_obs = self->block_[g_bj]; g_obs0 = g_obs;',
+         loops={0: '''__CPROVER_assigns(begin, __CPROVER_object_whole(self->block_), self->block_byte_index_, self->byte_count_, self->h_[0], self->h_[1], self->h_[2], self->h_[3], self->h_[4], g_nblocks, g_obs)
+__CPROVER_loop_invariant(IN_RANGE(begin, __CPROVER_loop_entry(begin), end) && self->block_byte_index_ == (g_off0 + (OFF(begin) - OFF(__CPROVER_loop_entry(begin)))) % 64 &&
+      self->byte_count_ == g_cnt0 + (OFF(begin) - OFF(__CPROVER_loop_entry(begin))) && g_nblocks == g_nb0 + (g_off0 + (OFF(begin) - OFF(__CPROVER_loop_entry(begin)))) / 64)
+/* bytes waiting in block_ (at the ghost index) are the stream bytes after the last completed block */
+__CPROVER_loop_invariant(g_bj < self->block_byte_index_ ==> self->block_[g_bj] == (64 * (g_nblocks - g_nb0) + g_bj < g_off0 ? g_old_for_obs : (__CPROVER_loop_entry(begin))[64 * (g_nblocks - g_nb0) + g_bj - g_off0]))
+/* completed blocks were handed over with exactly the stream bytes */
+__CPROVER_loop_invariant(g_obs == ((g_bi >= g_nb0 && g_bi < g_nblocks) ? (64 * (g_bi - g_nb0) + g_bj < g_off0 ? g_old_for_obs : (__CPROVER_loop_entry(begin))[64 * (g_bi - g_nb0) + g_bj - g_off0]) : g_obs0))
+__CPROVER_decreases(OFF(end) - OFF(begin))'''},
+         contract=r'''
+__CPROVER_requires(__CPROVER_rw_ok(self, sizeof(*self)) && self->block_byte_index_ < 64 && self->byte_count_ <= BUF_CAP && g_bj < 64 && g_nblocks <= BUF_CAP && VALID_RANGE((unsigned char const *)bytes_begin, (unsigned char const *)bytes_end) &&
+                   OFF(bytes_end) - OFF(bytes_begin) <= BUF_CAP && !SAME(bytes_begin, self))
+__CPROVER_assigns(*self, g_nblocks, g_obs, g_off0, g_nb0, g_cnt0, g_old_for_obs, g_obs0)
+/* chunking independence: after feeding n bytes the object is in the state "stream advanced by n": length + n, cursor (old + n) mod 64,
+   exactly the completed blocks of (buffered bytes ++ input) handed to the compression function in order with exactly those bytes */
+__CPROVER_ensures(self->byte_count_ == g_cnt0 + (OFF(bytes_end) - OFF(bytes_begin)) && self->block_byte_index_ == (g_off0 + (OFF(bytes_end) - OFF(bytes_begin))) % 64 &&
+                  g_nblocks == g_nb0 + (g_off0 + (OFF(bytes_end) - OFF(bytes_begin))) / 64)
+__CPROVER_ensures((g_bi >= g_nb0 && g_bi < g_nblocks) ==> g_obs == (64 * (g_bi - g_nb0) + g_bj < g_off0 ? g_old_for_obs : ((unsigned char const *)bytes_begin)[64 * (g_bi - g_nb0) + g_bj - g_off0]))
+'''),
+    dict(cname='sha1_get_digest', file=S, locate=lit('inline void sha1::get_digest(digest_type digest)'), sig='void sha1_get_digest(struct sha1 *self, unsigned int *digest)', self_arg='self',
+         members=['h_', 'block_byte_index_', 'byte_count_'], rename={'process_byte': 'sha1_process_byte'},
+         body_ghost='g_off0 = self->block_byte_index_; g_nb0 = g_nblocks; g_cnt0 = self->byte_count_; g_old_for_obs = self->block_[g_bj]; g_obs0 = g_obs;',
+         loops={0: SHA1_PAD_LOOP % dict(where='((self->block_byte_index_ == 0 && g_nblocks == g_nb0 + 1) || (self->block_byte_index_ > g_off0 && self->block_byte_index_ < 64 && g_nblocks == g_nb0)) && g_off0 >= 56 && g_off0 <= 62',
+                                        dec='(self->block_byte_index_ == 0 ? 0 : 64 - self->block_byte_index_)'),
+                1: SHA1_PAD_LOOP % dict(where='self->block_byte_index_ <= 56 && g_nblocks == g_nb0 + 1 && g_off0 >= 56 && g_off0 <= 62', dec='56 - self->block_byte_index_'),
+                2: SHA1_PAD_LOOP % dict(where='self->block_byte_index_ <= 56 && ((g_off0 < 56 && g_nblocks == g_nb0 && self->block_byte_index_ > g_off0) || (g_off0 == 63 && g_nblocks == g_nb0 + 1))', dec='56 - self->block_byte_index_')},
+         contract='__CPROVER_requires(__CPROVER_rw_ok(self, sizeof(*self)) && __CPROVER_w_ok(digest, 5 * sizeof(unsigned int)) && self->block_byte_index_ < 64 && self->byte_count_ <= BUF_CAP && g_bj < 64 && g_nblocks <= BUF_CAP && !SAME(digest, self))\n'
+                  '__CPROVER_assigns(*self, __CPROVER_object_upto(digest, 5 * sizeof(unsigned int)), g_nblocks, g_obs, g_off0, g_nb0, g_cnt0, g_old_for_obs, g_obs0)'),
     dict(cname='sha1_reset', file=S, locate=lit('inline void sha1::reset()'), sig='void sha1_reset(struct sha1 *self)', members=['h_', 'block_byte_index_', 'byte_count_'],
          contract='__CPROVER_requires(__CPROVER_rw_ok(self, sizeof(*self)))\n__CPROVER_assigns(self->h_[0], self->h_[1], self->h_[2], self->h_[3], self->h_[4], self->block_byte_index_, self->byte_count_)\n'
                   '/* FIPS 180-4 5.3.1 initial hash value */\n'
@@ -157,12 +211,12 @@ jobs = [
     __CPROVER_assert(st.count[0] == st0.count[0] && st.count[1] == st0.count[1], "md5: length counters untouched by the compression function");
     size_t j; __CPROVER_assume(j < 64); __CPROVER_assert(st.buf[j] == st0.buf[j], "md5: block buffer untouched by the compression function");
     VERIF_REACH;''', witness=dict(bufs=['block']), replay='c16:md5', replay_link=['-lcrypto', '-Wno-deprecated-declarations']),
-    dict(name='md5_append', props=P, enforce='md5_append', replace=['md5_process_c', 'verif_memcpy'], checks=HASH_CHECKS, timeout=300,
+    dict(name='md5_append', props=P, replay='c16:md5', replay_link=['-lcrypto', '-Wno-deprecated-declarations'], replay_exhaustive='every message length 0..150 (all padding residues, one and two final blocks), 4 input alignments, fed in two chunks, digest compared with OpenSSL', enforce='md5_append', replace=['md5_process_c', 'verif_memcpy'], checks=HASH_CHECKS, timeout=300,
          harness=r'''
     md5_state_t st; int n; __CPROVER_assume(n >= 0 && n < (1 << 28)); unsigned char *d = malloc(n > 0 ? n : 0); __CPROVER_assume(d != NULL);
     size_t bi, bj, nb; __CPROVER_assume(bj < 64 && nb <= BUF_CAP); g_bi = bi; g_bj = bj; g_nblocks = nb;
     md5_append(&st, d, n); VERIF_REACH;'''),
-    dict(name='md5_finish', props=P, enforce='md5_finish', replace=['md5_process_c', 'verif_memcpy'], pre_unwind=20, checks=HASH_CHECKS, timeout=600, cost=15,
+    dict(name='md5_finish', props=P, replay='c16:md5', replay_link=['-lcrypto', '-Wno-deprecated-declarations'], replay_exhaustive='every message length 0..150 (all padding residues, one and two final blocks), 4 input alignments, fed in two chunks, digest compared with OpenSSL', enforce='md5_finish', replace=['md5_process_c', 'verif_memcpy'], pre_unwind=20, object_bits=10, checks=HASH_CHECKS, timeout=600, cost=15,
          complete_note='md5_append is inlined with its real body: its block loop runs at most once for the <= 64 padding bytes and once for the 8 length bytes; the 8- and 16-iteration loops of md5_finish are unwound (constant bounds, unwinding assertions on)',
          harness=r'''
     md5_state_t st, st0; unsigned char dg[16]; size_t bi, bj, nb, dk; __CPROVER_assume(bj < 64 && nb <= BUF_CAP && dk < 16);
@@ -184,6 +238,28 @@ jobs = [
     dict(name='sha1_process_block0', props=P, enforce='sha1_process_block0', replace=['left_rotate'], checks=HASH_CHECKS, timeout=300, cost=20,
          harness='struct sha1 s; size_t t; __CPROVER_assume(t < 80); g_t = t; WIT_BUF(0, s.block_, 24); sha1_process_block0(&s); VERIF_REACH;',
          witness=dict(bufs=['block']), replay='c16:sha1', replay_link=['-lcrypto', '-Wno-deprecated-declarations']),
+    dict(name='sha1_process_byte', props=P, replay='c16:sha1', replay_link=['-lcrypto', '-Wno-deprecated-declarations'], replay_exhaustive='every message length 0..150 (all padding residues, one and two final blocks), 4 input alignments, fed in two chunks, digest compared with OpenSSL', enforce='sha1_process_byte', replace=['sha1_process_block0_c'], checks=HASH_CHECKS,
+         harness='struct sha1 s; unsigned char b; size_t bi, bj, nb; __CPROVER_assume(bj < 64 && nb <= BUF_CAP); g_bi = bi; g_bj = bj; g_nblocks = nb; sha1_process_byte(&s, b); VERIF_REACH;'),
+    dict(name='sha1_process_block_range', props=P, replay='c16:sha1', replay_link=['-lcrypto', '-Wno-deprecated-declarations'], replay_exhaustive='every message length 0..150 (all padding residues, one and two final blocks), 4 input alignments, fed in two chunks, digest compared with OpenSSL', enforce='sha1_process_block_range', replace=['sha1_process_byte'], checks=HASH_CHECKS, timeout=300,
+         harness=r'''
+    struct sha1 s; SYM_BUF(unsigned char, d, n, BUF_CAP); size_t bi, bj, nb; __CPROVER_assume(bj < 64 && nb <= BUF_CAP); g_bi = bi; g_bj = bj; g_nblocks = nb;
+    sha1_process_block_range(&s, d, d + n); VERIF_REACH;'''),
+    dict(name='sha1_get_digest', props=P, replay='c16:sha1', replay_link=['-lcrypto', '-Wno-deprecated-declarations'], replay_exhaustive='every message length 0..150 (all padding residues, one and two final blocks), 4 input alignments, fed in two chunks, digest compared with OpenSSL', enforce='sha1_get_digest', replace=['sha1_process_byte'], object_bits=10, checks=HASH_CHECKS, timeout=600, cost=5,
+         harness=r'''
+    struct sha1 s, s0; unsigned int dg[5]; size_t bi, bj, nb, dk; __CPROVER_assume(bj < 64 && nb <= BUF_CAP && dk < 5);
+    g_bi = bi; g_bj = bj; g_nblocks = nb; s0 = s;
+    size_t off0 = s0.block_byte_index_; uint64_t bits0 = (uint64_t)s0.byte_count_ * 8;
+    sha1_get_digest(&s, dg);
+    /* FIPS 180-4 5.1.1: the message is extended by 0x80, zeros up to 56 mod 64, then the 64-bit bit count, most significant byte first */
+    size_t total = off0 < 56 ? 64 : 128;
+    __CPROVER_assert(g_nblocks == nb + total / 64, "sha1::get_digest feeds one final block, or two when fewer than 9 bytes remain in the last one");
+    if(bi >= nb && bi < nb + total / 64) {
+      size_t t = 64 * (bi - nb) + bj;
+      unsigned char want = t < off0 ? s0.block_[t] : t == off0 ? 0x80 : t < total - 8 ? 0 : (unsigned char)(bits0 >> (8 * (7 - (t - (total - 8)))));
+      __CPROVER_assert(g_obs == want, "byte of the final block(s): buffered message bytes, then 0x80, zeros, and the big-endian bit length (FIPS 180-4 padding) for EVERY residue of the message length");
+    }
+    __CPROVER_assert(dg[dk] == s.h_[dk], "digest = H0..H4");
+    VERIF_REACH;'''),
     dict(name='sha1_reset', props=P, enforce='sha1_reset', checks=HASH_CHECKS, harness='struct sha1 s; sha1_reset(&s); VERIF_REACH;'),
 ]
 
@@ -198,5 +274,5 @@ UNIT = dict(
              'cbmc\'s same-object check is off for md5.cpp\'s alignment test `data - (const md5_byte_t *)0`',
              'hash: OpenSSL/gcrypt SHA-2 and AES are external (not compiled into the proof); "bundled and library-backed implementations agree" is not covered'],
     not_covered={'C16': ['SHA-224/256/384/512 and AES-CBC (OpenSSL/libgcrypt back ends, external code)', 'HMAC construction and key parsing in src/crypto.cpp (std::vector / virtual message_digest objects)',
-                         'streaming layer (md5_append/md5_finish, sha1::process_byte/get_digest: padding and chunking) -- only the compression functions, initial values and rotate are under contract']},
+                         'sha1::process_bytes (two-line wrapper over process_block(begin,end)); SHA-1 messages >= 2^29 bytes (get_digest writes a 32-bit bit count)']},
 )
